@@ -10,114 +10,7 @@ LEVEL = "other"
 CTXC = "Lib/core/ctx.c"
 
 
-def tri_and(a, b):
-    if a is False or b is False:
-        return False
-    if a is None or b is None:
-        return None
-    return True
-
-
-def tri_or(a, b):
-    if a is True or b is True:
-        return True
-    if a is None or b is None:
-        return None
-    return False
-
-
-def tri_not(a):
-    return None if a is None else (not a)
-
-
-def eval_bool(e, assumed, env):
-    """3-valued evaluation of a boolean expression under the atoms assumed on a path and the symbolic values of locals."""
-    e = strip(e)
-    if e is None:
-        return None
-    v = cval(e)
-    if v is not None:
-        return bool(v)
-    if e["k"] == "var" and e["name"] in env:
-        x = env[e["name"]]
-        if x in (True, False, None):
-            return x
-        return assumed.get(x[1])
-    if e["k"] == "un" and e["op"] == "!":
-        return tri_not(eval_bool(e["e"], assumed, env))
-    if e["k"] == "bin" and e["op"] == "&&":
-        return tri_and(eval_bool(e["l"], assumed, env), eval_bool(e["r"], assumed, env))
-    if e["k"] == "bin" and e["op"] == "||":
-        return tri_or(eval_bool(e["l"], assumed, env), eval_bool(e["r"], assumed, env))
-    ats = atoms(e, True)
-    if len(ats) == 1:
-        a, p = ats[0]
-        if a in assumed:
-            return assumed[a] == p
-    return None
-
-
-def sym_value(e, assumed, env):
-    """True / False / ("sym", atom) — the value of a boolean expression with known parts folded away."""
-    v = eval_bool(e, assumed, env)
-    if v is not None:
-        return v
-    r = strip(e)
-    if r["k"] == "var" and r["name"] in env:
-        return env[r["name"]]
-    if r["k"] == "bin" and r["op"] == "&&":
-        l = eval_bool(r["l"], assumed, env)
-        if l is True:
-            return sym_value(r["r"], assumed, env)
-        rr = eval_bool(r["r"], assumed, env)
-        if rr is True:
-            return sym_value(r["l"], assumed, env)
-    if r["k"] == "bin" and r["op"] == "||":
-        l = eval_bool(r["l"], assumed, env)
-        if l is False:
-            return sym_value(r["r"], assumed, env)
-        rr = eval_bool(r["r"], assumed, env)
-        if rr is False:
-            return sym_value(r["l"], assumed, env)
-    ats = atoms(e, True)
-    if len(ats) == 1 and ats[0][1]:
-        return ("sym", ats[0][0])
-    return ("sym", S(e))
-
-
-def simulate(f, path):
-    """Walk an enumerated path keeping symbolic values of boolean locals (copy propagation).  Returns
-    (feasible, env, assumed, events) — infeasible when a branch on a local contradicts its propagated value."""
-    env = {}
-    assumed = {}
-    evs = []
-    for (bid, at) in path:
-        for ev in f.blocks[bid].events:
-            evs.append(ev)
-            if ev.kind in ("decl", "assign") and ev.lhs is not None and strip(ev.lhs)["k"] == "var" and \
-                    (ev.kind == "decl" or ev.e["op"] == "=") and ev.rhs is not None:
-                name = S(ev.lhs)
-                t = (ev.e.get("t") if ev.kind == "decl" else strip(ev.lhs).get("t", "")) or ""
-                if "bool" in t or "_Bool" in t:
-                    env[name] = sym_value(ev.rhs, assumed, env)
-        for (a, p) in at:
-            if a in env:
-                x = env[a]
-                if x in (True, False):
-                    if x != p:
-                        return False, env, assumed, evs
-                    continue
-                if x is not None:
-                    sym = x[1]
-                    if sym in assumed and assumed[sym] != p:
-                        return False, env, assumed, evs
-                    assumed[sym] = p
-                    env[a] = p
-                    continue
-            if a in assumed and assumed[a] != p:
-                return False, env, assumed, evs
-            assumed[a] = p
-    return True, env, assumed, evs
+from rules import tri_and, tri_or, tri_not, eval_bool, sym_value, simulate
 
 
 def run(ck, P):
